@@ -159,3 +159,333 @@ Corollary parsed_normal_text_all_no_ip6 s u : parse s = POk u -> c08_deviates u 
 Proof.
   intros H Hdev E6. rewrite (parsed_normal_text_all s u H Hdev), (ParseRecompose.canon_ip6_id s u H E6). reflexivity.
 Qed.
+
+(* ================================================================ B. idempotence *)
+(* ---- what the relative walk leaves ---- *)
+(* the walk's stack (most recent first): segments that are no dot segments on top of a ".." run, or on top of
+   the one "." kept in front of a first segment containing ':' *)
+Fixpoint kept_ok (k : list text) : bool :=
+  match k with
+  | [] => true
+  | s :: r => if seg_dotdot s then forallb seg_dotdot r else if seg_dot s then is_nil r else kept_ok r
+  end.
+
+Lemma kept_ok_tl p r : kept_ok (p :: r) = true -> seg_dotdot p = false -> kept_ok r = true.
+Proof.
+  cbn [kept_ok]. intros H Hp. rewrite Hp in H. destruct (seg_dot p); [|exact H].
+  destruct r; [reflexivity|discriminate H].
+Qed.
+
+Lemma walk_kept_ok : forall rest kept, kept_ok kept = true ->
+  exists k', kept_ok k' = true /\ rds_walk true false false kept rest = rev k'.
+Proof.
+  induction rest as [|w nxt IH]; intros kept Hk.
+  - exists kept. split; [exact Hk|reflexivity].
+  - rewrite walk_cons. destruct (seg_dot w) eqn:Ed.
+    { destruct (is_nil kept && first_colon nxt) eqn:Ess.
+      - apply andb_prop in Ess. destruct Ess as [Ek _]. destruct kept as [|p kk]; [|discriminate Ek].
+        apply IH. cbn [kept_ok]. rewrite Ed. apply seg_dot_true in Ed. subst w. reflexivity.
+      - destruct nxt as [|n1 nxt']; [|apply IH; exact Hk].
+        destruct kept as [|p kk]; [exists []; split; reflexivity|].
+        exists ([] :: p :: kk). split; [exact Hk|reflexivity]. }
+    destruct (seg_dotdot w) eqn:Edd.
+    { destruct (match kept with [] => true | p :: _ => seg_dotdot p end) eqn:Ekeep.
+      - apply IH. cbn [kept_ok]. rewrite Edd. destruct kept as [|p kk]; [reflexivity|].
+        cbn [kept_ok] in Hk. rewrite Ekeep in Hk. cbn [forallb]. rewrite Ekeep, Hk. reflexivity.
+      - destruct kept as [|p kk]; [discriminate Ekeep|]. pose proof (kept_ok_tl p kk Hk Ekeep) as Hkk. cbn [tl].
+        destruct nxt as [|n1 nxt']; [|apply IH; exact Hkk].
+        destruct kk as [|pp kk']; [exists [[]]; split; reflexivity|].
+        exists ([] :: pp :: kk'). split; [exact Hkk|reflexivity]. }
+    apply IH. cbn [kept_ok]. rewrite Edd, Ed. exact Hk.
+Qed.
+
+Lemma no_dots_app a b : no_dots (a ++ b) = no_dots a && no_dots b.
+Proof. unfold no_dots. apply forallb_app. Qed.
+
+Lemma drop_dotdots_all l : forallb seg_dotdot l = true -> drop_dotdots l = [].
+Proof.
+  induction l as [|s r IH]; [reflexivity|]. cbn [forallb drop_dotdots]. intros H. apply andb_prop in H.
+  destruct H as [Hs Hr]. rewrite Hs. exact (IH Hr).
+Qed.
+
+Lemma drop_dotdots_snoc l s : seg_dot s = false -> seg_dotdot s = false ->
+  no_dots (drop_dotdots l) = true -> no_dots (drop_dotdots (l ++ [s])) = true.
+Proof.
+  intros Hd Hdd. induction l as [|x r IH]; intros H.
+  - cbn [app drop_dotdots]. rewrite Hdd. unfold no_dots. cbn [forallb]. rewrite Hd, Hdd. reflexivity.
+  - cbn [app drop_dotdots] in *. destruct (seg_dotdot x); [exact (IH H)|].
+    change (x :: r ++ [s]) with ((x :: r) ++ [s]). rewrite no_dots_app, H. unfold no_dots. cbn [forallb].
+    rewrite Hd, Hdd. reflexivity.
+Qed.
+
+(* read from the front: a ".." run followed by no dot segment, or one "." followed by no dot segment *)
+Lemma kept_ok_rev k : kept_ok k = true ->
+  no_dots (drop_dotdots (rev k)) = true \/ exists a, rev k = @cons text [46] a /\ no_dots a = true.
+Proof.
+  induction k as [|s r IH]; intros H; [left; reflexivity|].
+  cbn [kept_ok] in H. cbn [rev]. destruct (seg_dotdot s) eqn:Edd.
+  - left. rewrite drop_dotdots_all; [reflexivity|]. rewrite forallb_app, forallb_rev. cbn [forallb].
+    rewrite H, Edd. reflexivity.
+  - destruct (seg_dot s) eqn:Ed.
+    + destruct r; [|discriminate H]. apply seg_dot_true in Ed. subst s. right. exists []. split; reflexivity.
+    + destruct (IH H) as [Hl|(a & Ea & Ha)].
+      * left. apply drop_dotdots_snoc; assumption.
+      * right. exists (a ++ [s]). rewrite Ea. split; [reflexivity|]. rewrite no_dots_app, Ha. unfold no_dots.
+        cbn [forallb]. rewrite Ed, Edd. reflexivity.
+Qed.
+
+Theorem walk_shape segs :
+  let out := walk0 true false false segs in
+  no_dots (drop_dotdots out) = true \/ exists a, out = @cons text [46] a /\ no_dots a = true.
+Proof.
+  cbv zeta. unfold walk0. destruct segs as [|s0 sr]; [left; reflexivity|].
+  destruct (walk_kept_ok (s0 :: sr) [] eq_refl) as (k' & Hk & E). rewrite E. exact (kept_ok_rev k' Hk).
+Qed.
+
+(* ---- the "." in front of the result ---- *)
+(* a result that begins with a "." segment keeps it under a second normalization exactly when the "." stands
+   in front of a segment containing ':' (the essential dot) or in front of two empty segments (the guard of
+   uriFixAmbiguity); a result that does not begin with "." is a fixed point *)
+Definition dot_needed (out : list text) : bool :=
+  match out with
+  | d :: rest =>
+    if seg_dot d then
+      match rest with
+      | s :: _ => has_colon s || match rest with [] :: [] :: _ => true | _ => false end
+      | [] => false
+      end
+    else true
+  | [] => true
+  end.
+Definition kf_dot_unneeded (u : uri) : bool :=
+  relative_ref u && negb (dot_needed (pathSegs (normalize 63 u))).
+
+Lemma pathSegs_relative u : relative_ref u = true ->
+  pathSegs (normalize 63 u)
+  = fet_segs false (guard_segs false false (walk0 true false false (map fix_pct (pathSegs u)))).
+Proof.
+  intros Hrel. destruct (path_text_relative u Hrel) as (_ & _ & E). rewrite E. apply norm_segs_of_steps.
+Qed.
+
+Lemma dotted_result a : fet_segs false (guard_segs false false (@cons text [46] a)) = @cons text [46] a.
+Proof. reflexivity. Qed.
+
+Lemma not_dot_result out : no_dots (drop_dotdots out) = true ->
+  dot_needed (fet_segs false (guard_segs false false out)) = true.
+Proof.
+  intros H. destruct out as [|h t]; [reflexivity|]. destruct (seg_dot h) eqn:Ed.
+  - apply seg_dot_true in Ed. subst h. cbn [drop_dotdots] in H. change (seg_dotdot [46]) with false in H.
+    cbv iota in H. unfold no_dots in H. cbn [forallb] in H. change (seg_dot [46]) with true in H. discriminate H.
+  - destruct h as [|c s].
+    + destruct t as [|[|e t'] r]; reflexivity.
+    + assert (fet_segs false (guard_segs false false (@cons text (c :: s) t)) = (c :: s) :: t) as E
+        by (destruct t as [|[|e t'] r]; reflexivity).
+      rewrite E. unfold dot_needed. rewrite Ed. reflexivity.
+Qed.
+
+Lemma no_dots_Forall' a : no_dots a = true -> Forall (fun s => seg_dot s = false /\ seg_dotdot s = false) a.
+Proof. apply no_dots_Forall. Qed.
+
+(* the second walk on a result "." :: a *)
+Lemma walk_dotted a : no_dots a = true ->
+  rds_walk true false false [] (@cons text [46] a)
+  = match a with
+    | [] => []
+    | s :: _ => if has_colon s then [46] :: a else a
+    end.
+Proof.
+  intros Ha. rewrite walk_cons. change (seg_dot [46]) with true. cbv iota. cbn [is_nil andb]. unfold first_colon.
+  destruct a as [|s r]; [reflexivity|]. destruct (has_colon s).
+  - rewrite rds_walk_no_dots by (apply no_dots_Forall; exact Ha). reflexivity.
+  - rewrite rds_walk_no_dots by (apply no_dots_Forall; exact Ha). reflexivity.
+Qed.
+
+Lemma pct_wf_segs u : uri_pct_wf u = true -> forallb pct_wf (pathSegs u) = true.
+Proof. intros H. exact (proj1 (proj2 (proj2 (pct_wf_parts u H)))). Qed.
+
+(* the path of the second normalization, from the result of the first walk *)
+Lemma second_pass u : uri_pct_wf u = true -> relative_ref u = true ->
+  let M := pathSegs (normalize 63 u) in
+  pathSegs (normalize 63 (normalize 63 u))
+  = fet_segs false (guard_segs false false (walk0 true false false M))
+  /\ M = fet_segs false (guard_segs false false (walk0 true false false (map fix_pct (pathSegs u)))).
+Proof.
+  intros Hwf Hrel. cbv zeta. destruct (normalize_flags u) as (Hr & _ & _ & _).
+  rewrite Hrel in Hr. split; [|exact (pathSegs_relative u Hrel)].
+  rewrite (pathSegs_relative (normalize 63 u) Hr). f_equal. f_equal. f_equal.
+  apply map_fixed. rewrite (pathSegs_relative u Hrel).
+  pose proof (walk0_fixed true false false (pathSegs u) (pct_wf_segs u Hwf)) as Hf.
+  set (W := walk0 true false false (map fix_pct (pathSegs u))) in *. clearbody W.
+  assert (Forall (fun s => fix_pct s = s) (guard_segs false false W)) as HG.
+  { destruct W as [|[|c s] [|[|e t] r]]; cbn [guard_segs]; try exact Hf. constructor; [reflexivity|exact Hf]. }
+  unfold fet_segs. cbn [negb]. destruct (guard_segs false false W) as [|[|c s] [|? ?]]; try exact HG. constructor.
+Qed.
+
+Lemma components_pathSegs u v : components u = components v -> pathSegs u = pathSegs v.
+Proof. unfold components. intros H. injection H. auto. Qed.
+
+Lemma length_guarded W : (length (fet_segs false (guard_segs false false W)) <= S (length W))%nat
+  /\ (match W with [] :: [] :: _ => false | _ => true end = true ->
+      (length (fet_segs false (guard_segs false false W)) <= length W)%nat).
+Proof. destruct W as [|[|c s] [|[|e t] r]]; cbn [guard_segs fet_segs negb length]; split; intros; try lia; discriminate. Qed.
+
+(* EXACTLY: a second normalization changes nothing iff the reference is not a relative-path reference whose
+   first result carries a "." that is not needed *)
+Theorem normalize_idempotent_exact u : uri_pct_wf u = true ->
+  (components (normalize 63 (normalize 63 u)) = components (normalize 63 u) <-> kf_dot_unneeded u = false).
+Proof.
+  intros Hwf. unfold kf_dot_unneeded. destruct (relative_ref u) eqn:Hrel.
+  2:{ split; [reflexivity|]. intros _. exact (normalize_idem u Hwf Hrel). }
+  cbn [andb]. destruct (relative_ref_flags u Hrel) as [Hab Hh].
+  destruct (second_pass u Hwf Hrel) as [E2 E1]. cbv zeta in E2, E1.
+  assert (forall out, out = walk0 true false false (map fix_pct (pathSegs u)) ->
+                      rds_walk true false false [] out = out ->
+                      components (normalize 63 (normalize 63 u)) = components (normalize 63 u)) as Hwalk.
+  { intros out -> Hw. apply normalize_idem_walk; [exact Hwf|]. cbv zeta. rewrite Hrel, Hab, Hh. exact Hw. }
+  destruct (walk_shape (map fix_pct (pathSegs u))) as [Hl|(a & Ea & Ha)]; cbv zeta in *.
+  - (* no "." in front of the walk's output: stable *)
+    rewrite E1, (not_dot_result _ Hl). split; [reflexivity|]. intros _.
+    apply (Hwalk _ eq_refl). apply (rds_walk_dotdot_run false false _ []); [constructor|exact Hl].
+  - rewrite Ea, dotted_result in E1. rewrite E1 in E2 |- *.
+    unfold walk0 in E2. cbv iota in E2. rewrite (walk_dotted a Ha) in E2.
+    destruct a as [|s r].
+    + (* "." alone *)
+      cbn [dot_needed negb]. split; [|discriminate]. intros H. apply components_pathSegs in H.
+      rewrite E2, E1 in H. discriminate H.
+    + cbn [dot_needed]. destruct (has_colon s) eqn:Ec.
+      * (* the essential dot *)
+        cbn [orb negb]. split; [reflexivity|]. intros _. apply (Hwalk _ (eq_sym Ea)).
+        rewrite (walk_dotted (s :: r) Ha), Ec. reflexivity.
+      * cbn [orb]. destruct (match s :: r with [] :: [] :: _ => true | _ => false end) eqn:Eg.
+        -- (* the guard *)
+           cbn [negb]. split; [reflexivity|]. intros _. apply normalize_idem_core; [exact Hwf|].
+           destruct (normalize_flags (normalize 63 u)) as (_ & _ & _ & Hp). rewrite <- Hp, E2, E1.
+           destruct s as [|c s']; [|discriminate Eg]. destruct r as [|[|e t] r']; try discriminate Eg. reflexivity.
+        -- cbn [negb]. split; [|discriminate]. intros H. apply components_pathSegs in H. rewrite E2, E1 in H.
+           apply (f_equal (@length text)) in H. cbn [length] in H.
+           assert (match s :: r with [] :: [] :: _ => false | _ => true end = true) as Hg
+             by (destruct s as [|? ?]; [destruct r as [|[|? ?] ?]; [reflexivity|discriminate Eg|reflexivity]|reflexivity]).
+           pose proof (proj2 (length_guarded (s :: r)) Hg) as Hlen.
+           cbn [length] in Hlen. lia.
+Qed.
+
+Corollary normalize_idempotent_dot_needed u : uri_pct_wf u = true -> kf_dot_unneeded u = false ->
+  components (normalize 63 (normalize 63 u)) = components (normalize 63 u).
+Proof. intros Hwf H. apply (normalize_idempotent_exact u Hwf). exact H. Qed.
+
+(* for relative-path references, on the result alone *)
+Corollary normalize_idempotent_iff u : uri_pct_wf u = true -> relative_ref u = true ->
+  (components (normalize 63 (normalize 63 u)) = components (normalize 63 u)
+   <-> dot_needed (pathSegs (normalize 63 u)) = true).
+Proof.
+  intros Hwf Hrel. rewrite (normalize_idempotent_exact u Hwf). unfold kf_dot_unneeded. rewrite Hrel. cbn [andb].
+  destruct (dot_needed _); split; intros H; try reflexivity; discriminate H.
+Qed.
+
+(* ---- in the vocabulary of the findings ---- *)
+(* an unneeded "." is the stale dot D7d of the reference itself, or its removal by the second normalization
+   is D7a ("./" -> "") or D7c (".//x" -> "/x") of the normal form *)
+Lemma dot_unneeded_shapes u : uri_pct_wf u = true -> kf_dot_unneeded u = true ->
+  kf_stale_dot u = true \/ kf_cancels (normalize 63 u) = true \/ kf_exposes_empty (normalize 63 u) = true.
+Proof.
+  intros Hwf H. unfold kf_dot_unneeded in H. apply andb_prop in H. destruct H as [Hrel H].
+  apply negb_true_iff in H.
+  destruct (second_pass u Hwf Hrel) as [E2 E1]. cbv zeta in E2, E1.
+  destruct (normalize_flags u) as (Hr & _ & _ & _). rewrite Hrel in Hr.
+  unfold kf_stale_dot, kf_cancels, kf_exposes_empty. rewrite Hrel, Hr. cbn [andb].
+  destruct (walk_shape (map fix_pct (pathSegs u))) as [Hl|(a & Ea & Ha)]; cbv zeta in *.
+  - rewrite E1, (not_dot_result _ Hl) in H. discriminate H.
+  - rewrite Ea, dotted_result in E1. rewrite E1 in E2, H |- *.
+    unfold walk0 in E2. cbv iota in E2. rewrite (walk_dotted a Ha) in E2. rewrite E2.
+    unfold dot_needed in H. change (seg_dot [46]) with true in H. cbv iota in H.
+    destruct a as [|s r]; [left; reflexivity|].
+    apply orb_false_elim in H. destruct H as [Hc Hg]. rewrite Hc.
+    destruct s as [|c s'].
+    + destruct r as [|[|e t] r'].
+      * right. left. reflexivity.
+      * discriminate Hg.
+      * right. right. reflexivity.
+    + left. cbn [stale_shape is_nil negb andb]. rewrite Hc. reflexivity.
+Qed.
+
+(* idempotence, every object: outside D7d of the reference and D7a / D7c of its normal form *)
+Theorem normalize_idempotent_shapes u : uri_pct_wf u = true ->
+  kf_stale_dot u = false -> kf_cancels (normalize 63 u) = false -> kf_exposes_empty (normalize 63 u) = false ->
+  components (normalize 63 (normalize 63 u)) = components (normalize 63 u).
+Proof.
+  intros Hwf H1 H2 H3. apply (normalize_idempotent_dot_needed u Hwf).
+  destruct (kf_dot_unneeded u) eqn:E; [|reflexivity].
+  destruct (dot_unneeded_shapes u Hwf E) as [H|[H|H]]; congruence.
+Qed.
+
+(* every parsed reference: the reference and its normal form outside the five shapes *)
+Theorem normalize_idempotent_all_partial s u : parse s = POk u ->
+  c08_deviates u = false -> c08_deviates (normalize 63 u) = false ->
+  components (normalize 63 (normalize 63 u)) = components (normalize 63 u).
+Proof.
+  intros H Hd Hd2.
+  destruct (c08_deviates_parts u Hd) as (_ & _ & _ & _ & K5).
+  destruct (c08_deviates_parts _ Hd2) as (K1 & _ & K3 & _ & _).
+  apply normalize_idempotent_shapes; try assumption.
+  exact (proj1 (ParseWf.parsed_wf_normalization u (ParseWf.parse_wf s u H))).
+Qed.
+
+(* "outside the five shapes" alone is not enough: "./b:c/.." is outside them and agrees with the
+   specification ("./"), its normal form "./" is D7a: the second normalization leaves "" *)
+Lemma normalize_idempotent_all_refuted :
+  exists s u, parse s = POk u /\ c08_deviates u = false
+              /\ to_text (normalize 63 u) = Normal.normal_text s
+              /\ kf_cancels (normalize 63 u) = true
+              /\ components (normalize 63 (normalize 63 u)) <> components (normalize 63 u).
+Proof.
+  exists wit_cancel. eexists. split; [vm_compute; reflexivity|].
+  split; [vm_compute; reflexivity|]. split; [vm_compute; reflexivity|]. split; [vm_compute; reflexivity|].
+  vm_compute. discriminate.
+Qed.
+
+(* and D7c of the normal form: "./b:c/..//x" -> ".//x" (as the specification) -> "/x" *)
+Lemma normalize_idempotent_exposes_refuted :
+  exists s u, parse s = POk u /\ c08_deviates u = false
+              /\ to_text (normalize 63 u) = Normal.normal_text s
+              /\ kf_exposes_empty (normalize 63 u) = true
+              /\ components (normalize 63 (normalize 63 u)) <> components (normalize 63 u).
+Proof.
+  exists [46; 47; 98; 58; 99; 47; 46; 46; 47; 47; 120]. eexists. split; [vm_compute; reflexivity|].
+  split; [vm_compute; reflexivity|]. split; [vm_compute; reflexivity|]. split; [vm_compute; reflexivity|].
+  vm_compute. discriminate.
+Qed.
+
+(* the specification itself is idempotent on these two: the normal form of "./" is "./", of ".//x" is ".//x" *)
+Lemma spec_idempotent_on_witnesses :
+  Normal.normal_text (Normal.normal_text wit_cancel) = Normal.normal_text wit_cancel
+  /\ Normal.normal_text (Normal.normal_text [46; 47; 98; 58; 99; 47; 46; 46; 47; 47; 120])
+     = Normal.normal_text [46; 47; 98; 58; 99; 47; 46; 46; 47; 47; 120].
+Proof. split; vm_compute; reflexivity. Qed.
+
+(* ---- the statement tested by computation (a test, not the proof) ---- *)
+(* all lists of up to five segments over {"", ".", "..", "a", "b:c", "%2e", "%2E%2e"} (RelNormalize.lists_upto):
+   on every well-formed one, idempotence holds exactly when kf_dot_unneeded is false *)
+Fixpoint segs_eqb (a b : list text) : bool :=
+  match a, b with
+  | [], [] => true
+  | x :: a', y :: b' => Resolve.text_eqb x y && segs_eqb a' b'
+  | _, _ => false
+  end.
+Definition idem_segs (u : uri) : bool :=
+  segs_eqb (pathSegs (normalize 63 (normalize 63 u))) (pathSegs (normalize 63 u)).
+
+Lemma idempotence_tested :
+  forallb (fun segs => let u := rel_uri segs in
+                       if rel_hyps_b u then Bool.eqb (idem_segs u) (negb (kf_dot_unneeded u)) else true)
+          (lists_upto 5) = true
+  /\ N.of_nat (length (filter (fun segs => let u := rel_uri segs in
+                                           rel_hyps_b u && negb (carved u) && negb (idem_segs u)) (lists_upto 5))) = 224
+  /\ forallb (fun segs => let u := rel_uri segs in
+                          if rel_hyps_b u && negb (carved u) && negb (carved (normalize 63 u)) then idem_segs u else true)
+             (lists_upto 5) = true.
+Proof. vm_compute. repeat split. Qed.
+
+Print Assumptions parsed_normal_text_all.
+Print Assumptions parsed_normal_five_all.
+Print Assumptions normalize_idempotent_exact.
+Print Assumptions normalize_idempotent_all_partial.
